@@ -7,6 +7,9 @@ that depends on which source set it.  The Settings object cminx.main() would
 hand to cminx.document() is captured (document is replaced by a recorder) and
 compared field by field with a small reference model.  A separate
 fault-injecting configuration makes a source unreadable or tears it.
+
+Replay spec: {"sources": {"cli": {dotted key: value}, "sfile": {...}, "user": {...}}, "user_where": home|xdg|cminxdir,
+ "cwd", "sfile_path", "sfile_abs", "wrong": {"key","source"}|null, "fault": {"kind": "read"|"torn", "source", ...}|null}
 """
 import os
 import posixpath
